@@ -1,12 +1,15 @@
 import TracklibVerif.Lemmas.DTWTable
 import TracklibVerif.Lemmas.FDTW
 import TracklibVerif.Lemmas.DTWFront
+import TracklibVerif.Lemmas.DTWScale
+import Mathlib.Analysis.Real.Sqrt
 import Mathlib.Algebra.Order.Field.Basic
 import Mathlib.Tactic.Ring
 import Mathlib.Algebra.Order.Ring.Rat
 /-! # C18 — time-warping cost is the optimal coupling cost and the matching realises it
 
-Property theorems only (helpers: `Lemmas/DTW.lean`, `Lemmas/DTWTable.lean`, `Lemmas/FDTW.lean`, `Lemmas/DTWFront.lean`). They are
+Property theorems only (helpers: `Lemmas/DTW.lean`, `Lemmas/DTWTable.lean`, `Lemmas/FDTW.lean`, `Lemmas/DTWFront.lean`,
+`Lemmas/DTWScale.lean`). They are
 about the executable model of `Model/DTWTable.lean` — the table form that the driver runs and the correspondence check
 compares with `tracklib.algo.comparison.match` / `compare` — for **all** pairs of non-empty tracks, **every point distance**
 `dist` (what `_distance(·, ·, dim)` computes: `dim` 1, 2, 3 or a callable, positions of class `ENUCoords`, `GeoCoords` or
@@ -872,6 +875,45 @@ theorem compare_mean_power (G : Geom α) (root : Nat → α → α) (big : α) (
   exact div_mul_cancel₀ _ (ne_of_gt hpos)
 
 
+/-! ### the unit of the coordinates -/
+
+/-- **the matching does not depend on the unit of the point distance**: with every point distance multiplied by `c > 0`
+(metres → millimetres, degrees → arc seconds), `_dtw` with the accumulation of `p` returns the same coupling `S`, the same
+`nb_links` and `pair` lists, and the score multiplied by `c**p` (by `c` for `p = inf`, unchanged for `p = 0`): no threshold,
+tolerance or other absolute quantity enters the computation -/
+theorem cost_unit_invariant (dist : Pt α → Pt α → α) (c : α) (hc : 0 < c) (p : PNorm)
+    (t1 t2 : List (Pt α)) (h1 : 0 < t1.length) (h2 : 0 < t2.length) :
+    ∃ o o', dtw dist (weight p) t1 t2 = some o ∧ dtw (fun a b => c * dist a b) (weight p) t1 t2 = some o' ∧
+      o'.S = o.S ∧ o'.score = unitFactor c p * o.score ∧ o'.nbLinks = o.nbLinks ∧
+      ∀ j : Nat, (o'.rows[j]?).map (fun r : Row α => r.pair) = (o.rows[j]?).map (fun r : Row α => r.pair) := by
+  apply dtw_hom dist (fun a b => c * dist a b) (weight p) (weight p) (fun a => unitFactor c p * a)
+    (mul_le_mul_pos_iff _ (unitFactor_pos c hc p)) t1 t2 t1 t2 rfl rfl h1 h2
+  · have := weight_unit c hc p 0 (Dmat dist t1 t2 0 0)
+    rw [mul_zero] at this
+    exact this
+  · intro a i j
+    exact weight_unit c hc p a _
+
+/-- **the unit of the coordinates does not matter** (`ENUCoords`, `dim` 1, 2, 3): with every coordinate of both tracks multiplied
+by `c > 0`, `_dtw` returns the same coupling, `nb_links` and `pair` lists, and the score multiplied by `c**p` (`c` for
+`p = inf`) — for a `sqrt` that is homogeneous (`sqrt(c²x) = c·sqrt(x)` on `x ≥ 0`, as the real square root is; in floating
+point this holds exactly when `c` is a power of two, which is what the `slat` stream of the harness exercises) -/
+theorem unit_invariant (sqrt : α → α) (c : α) (hc : 0 < c) (hs : ∀ x, 0 ≤ x → sqrt (c * c * x) = c * sqrt x) (p : PNorm)
+    (d : Nat) (t1 t2 : List (Pt α)) (h1 : 0 < t1.length) (h2 : 0 < t2.length) :
+    ∃ o o', dtw (distance sqrt d) (weight p) t1 t2 = some o ∧
+      dtw (distance sqrt d) (weight p) (t1.map (Pt.scale c)) (t2.map (Pt.scale c)) = some o' ∧
+      o'.S = o.S ∧ o'.score = unitFactor c p * o.score ∧ o'.nbLinks = o.nbLinks ∧
+      ∀ j : Nat, (o'.rows[j]?).map (fun r : Row α => r.pair) = (o.rows[j]?).map (fun r : Row α => r.pair) := by
+  apply dtw_hom (distance sqrt d) (distance sqrt d) (weight p) (weight p) (fun a => unitFactor c p * a)
+    (mul_le_mul_pos_iff _ (unitFactor_pos c hc p)) t1 t2 _ _ (by simp) (by simp) h1 h2
+  · rw [Dmat_scale sqrt c hc hs]
+    have := weight_unit c hc p 0 (Dmat (distance sqrt d) t1 t2 0 0)
+    rw [mul_zero] at this
+    exact this
+  · intro a i j
+    rw [Dmat_scale sqrt c hc hs]
+    exact weight_unit c hc p a _
+
 end field
 
 
@@ -930,6 +972,11 @@ example : ∃ dist, distanceOf (α := ℚ) { cls := .geo, T := exTrig } (.fn (fu
 /-- … and `hsymm` of `match_correct` too, for `dim = 3` on `GeoCoords` -/
 example : ∃ dist, distanceOf (α := ℚ) { cls := .geo, T := exTrig } (.num 3) = .ok dist ∧ ∀ p q, dist p q = dist q p :=
   ⟨_, (distance_geo _ rfl).2.2, distanceOf_symm _ 3 (Or.inr rfl) _ (distance_geo _ rfl).2.2⟩
+
+/-- the hypotheses on `sqrt` (`hsqrt` of `distanceOf_nonneg`, `hs` of `unit_invariant`) hold of the real square root -/
+example : ∀ x : ℝ, 0 ≤ Real.sqrt x := Real.sqrt_nonneg
+example (c : ℝ) (hc : 0 < c) : ∀ x : ℝ, 0 ≤ x → Real.sqrt (c * c * x) = c * Real.sqrt x :=
+  fun x _ => by rw [Real.sqrt_mul (mul_self_nonneg c), Real.sqrt_mul_self hc.le]
 
 /-- the hypothesis of `compare_mean_power` is satisfiable: for `p = 1` the root is the identity -/
 example : ∀ x : ℚ, 0 ≤ x → npow ((fun (_ : Nat) (y : ℚ) => y) (0+1) x) (0+1) = x := fun _ _ => rfl
